@@ -177,37 +177,34 @@ def run(check, an: Analysis):
     run_events = an.callee(LOOP, '_run_events')
     n = 0
     for path in an.paths(run_events):
-        for index, event in enumerate(path.events):
-            if is_call_to(event, '_run_coroutine'):
-                n += 1
-                # the popped activation was tested true with nothing in between
-                subject = None
-                if isinstance(event.node, ast.Call) and event.node.args:
-                    first = rules.value_expr(path, index, event.node.args[0])
-                    root = first.value if isinstance(first, ast.Attribute) else first
-                    subject = rules.normalise_state_aliases(ast.unparse(root))
-                ok = False
-                for pos in range(index - 1, -1, -1):
-                    before = path.events[pos]
-                    if before.kind == 'store' and before.get('local') and \
-                            rules.value_text(path, pos + 1, before.node) == subject and \
-                            before.get('value') is not None:
-                        break
-                    if before.kind == 'test' and subject is not None and \
-                            rules.value_text(path, pos, before.node) == subject:
-                        ok = before['value'] is True
-                        break
-                if not ok:
-                    check.instance('D', '_run_events:skips-revoked', False, event.where,
-                                   'an activation is run without testing whether its '
-                                   'signal was revoked', path=rules.path_lines(path, index))
+        for index, _kind, subject in rules.activation_resumes(path):
+            event = path.events[index]
+            n += 1
+            # the popped activation was tested true with nothing in between
+            ok = False
+            for pos in range(index - 1, -1, -1):
+                before = path.events[pos]
+                if before.kind == 'test' and \
+                        rules.value_text(path, pos, before.node) == subject:
+                    ok = before['value'] is True
+                    break
+                if before.kind == 'susp':
+                    break
+            if not ok:
+                check.instance('D', '_run_events:skips-revoked', False, event.where,
+                               'an activation is run without testing whether its '
+                               'signal was revoked', path=rules.path_lines(path, index))
     check.instance('D', '_run_events:skips-revoked', n > 0, where_fn(run_events.fn),
-                   'every _run_coroutine call is dominated by the truth test of the popped '
-                   'activation (%d calls on paths)' % n, analysed=n)
+                   'every resumption of a coroutine is dominated by the truth test of the popped '
+                   'activation (%d resumptions on paths)' % n, analysed=n)
     act_bool = an.method('usim._core.loop.Activation', '__bool__')
-    expr = [n_ for n_ in ast.walk(act_bool.node) if isinstance(n_, ast.Return)]
-    check.instance('D', 'Activation.__bool__', len(expr) == 1 and equal_bool(
-        expr[0].value, 'self.signal is None or not self.signal._revoked'),
+    from ..norm import function_predicate, bool_term as _bt, equivalent_terms as _eqv
+    try:
+        got = function_predicate(act_bool.node)
+    except Exception:
+        got = None
+    check.instance('D', 'Activation.__bool__', got is not None and _eqv(got, _bt(ast.parse(
+        'self.signal is None or not self.signal._revoked', mode='eval').body)),
         where_fn(act_bool), 'an activation counts unless its signal was revoked')
     revoke = an.method('usim._core.loop.Interrupt', 'revoke')
     stores = [n_ for n_ in ast.walk(revoke.node) if isinstance(n_, ast.Assign)]
